@@ -111,11 +111,13 @@ def correspondence(ctx):
                     newbin = ser_header(spl) + binA[offA:]
                     text = B.text_of_binary(cm, newbin)
                     toyecc.reset()
-                    rd = C.impl_bec2_read(text, decs, True, ToyPub, ToyPriv)
+                    chk = r.random() < 0.6           # the key rule does not depend on the MAC option
+                    rd = C.impl_bec2_read(text, decs, chk, ToyPub, ToyPriv)
                     nr2 = toyecc.STATE["nr"]
                     qd = qlist([C.q_encryptor(e) for e in decs], "encryptor")
-                    exprs.append("res_eqb (prod_eqb bec2_eqb N.eqb) (t_read %s %s true 0) %s" % (
-                        B.qstr(text), qd, qres(rd, lambda ob: "(%s, %s)" % (C.q_bec2_obj(ob), qN(nr2)))))
+                    exprs.append("res_eqb (prod_eqb bec2_eqb N.eqb) (t_read %s %s %s 0) %s" % (
+                        B.qstr(text), qd, "true" if chk else "false",
+                        qres(rd, lambda ob: "(%s, %s)" % (C.q_bec2_obj(ob), qN(nr2)))))
                     descr.append(("spliced", text, decs))
                     ctx.case(("sp", text, repr(decs)))
                     ctx.dist["spliced->" + ("ok" if rd[0] == "ok" else rd[1])] += 1
@@ -258,9 +260,11 @@ def search(ctx):
                 body = B.build(cm, comps).to_binary(len(hdr), kA)
                 text = B.text_of_binary(cm, hdr + body)
                 ctx.case(("splice", kx, ky, kA, kB))
-                g = run_impl(Bec2File.read_file, io.StringIO(text), decs_of([kx, ky]), True)
-                if g != ("err", "EBec2"):
-                    ctx.fail("mixed-keys-accepted", {"kinds": [kx, ky], "keyA": kA, "keyB": kB}, repr(g)[:200])
+                for chk in (True, False):             # with and without the MAC option
+                    g = run_impl(Bec2File.read_file, io.StringIO(text), decs_of([kx, ky]), chk)
+                    if g != ("err", "EBec2"):
+                        ctx.fail("mixed-keys-accepted", {"kinds": [kx, ky], "keyA": kA, "keyB": kB, "check_cmac": chk},
+                                 repr(g)[:200])
                 # control: with only the first decryptor the spliced file is fine (second block passes through)
                 g2 = run_impl(Bec2File.read_file, io.StringIO(text), decs_of([kx]), True)
                 if g2[0] != "ok":
